@@ -125,20 +125,57 @@ theorem interleave_max (dd : Nat) (h : dd ≤ 32) : interleave (2 ^ dd - 1) (2 ^
 
 /-! ## 1. masks -/
 
-theorem xMask_spec (cfg : Cfg) (dd : Nat) (h1 : 1 ≤ dd) (h2 : dd ≤ 32) :
-    xMaskFn cfg dd = some (interleave (2 ^ dd - 1) 0) := by
-  have : dd ≠ 0 := by omega
-  simp [xMaskFn, this, x55_shr dd h2]
-
-theorem yMask_spec (cfg : Cfg) (dd : Nat) (h1 : 1 ≤ dd) (h2 : dd ≤ 32) :
-    yMaskFn cfg dd = some (interleave 0 (2 ^ dd - 1)) := by
-  have : dd ≠ 0 := by omega
-  simp [yMaskFn, this, xAA_shr dd h2]
-
-theorem xyMask_spec (cfg : Cfg) (dd : Nat) (h1 : 1 ≤ dd) (h2 : dd ≤ 32) :
+theorem xyMask_spec (cfg : Cfg) (dd : Nat) (h2 : dd ≤ 32) :
     xyMaskFn cfg dd = some (4 ^ dd - 1) := by
-  have : dd ≠ 0 := by omega
-  simp [xyMaskFn, this, xFF_shr dd h2]
+  by_cases h0 : dd = 0
+  · subst h0; rfl
+  · simp [xyMaskFn, h0, xFF_shr dd h2]
+
+/-- the even bits below `2·dd`: what `0x5555… & xy_mask(dd)` is -/
+theorem x55_and (dd : Nat) (h : dd ≤ 32) : (0x5555555555555555 : Nat) &&& (4 ^ dd - 1) = interleave (2 ^ dd - 1) 0 := by
+  rw [x55_eq, four_pow]
+  apply Nat.eq_of_testBit_eq; intro p
+  rw [Nat.testBit_and, Nat.testBit_two_pow_sub_one]
+  obtain ⟨q, rfl | rfl⟩ := parity_cases p
+  · rw [testBit_interleave_even, testBit_interleave_even, Nat.testBit_two_pow_sub_one, Nat.testBit_two_pow_sub_one]
+    by_cases h1 : q < dd
+    · have : q < 32 := by omega
+      have : 2 * q < 2 * dd := by omega
+      simp [*]
+    · have : ¬ (2 * q < 2 * dd) := by omega
+      simp [*]
+  · rw [testBit_interleave_odd, testBit_interleave_odd]
+    simp
+
+theorem xAA_and (dd : Nat) (h : dd ≤ 32) : (0xAAAAAAAAAAAAAAAA : Nat) &&& (4 ^ dd - 1) = interleave 0 (2 ^ dd - 1) := by
+  rw [xAA_eq, four_pow]
+  apply Nat.eq_of_testBit_eq; intro p
+  rw [Nat.testBit_and, Nat.testBit_two_pow_sub_one]
+  obtain ⟨q, rfl | rfl⟩ := parity_cases p
+  · rw [testBit_interleave_even, testBit_interleave_even]
+    simp
+  · rw [testBit_interleave_odd, testBit_interleave_odd, Nat.testBit_two_pow_sub_one, Nat.testBit_two_pow_sub_one]
+    by_cases h1 : q < dd
+    · have : q < 32 := by omega
+      have : 2 * q + 1 < 2 * dd := by omega
+      simp [*]
+    · have : ¬ (2 * q + 1 < 2 * dd) := by omega
+      simp [*]
+
+/-- `x_mask(dd)`, `dd = 0` included since the repair of the masks -/
+theorem xMask_spec0 (cfg : Cfg) (dd : Nat) (h2 : dd ≤ 32) :
+    xMaskFn cfg dd = some (interleave (2 ^ dd - 1) 0) := by
+  simp [xMaskFn, xyMask_spec cfg dd h2, x55_and dd h2]
+
+theorem yMask_spec0 (cfg : Cfg) (dd : Nat) (h2 : dd ≤ 32) :
+    yMaskFn cfg dd = some (interleave 0 (2 ^ dd - 1)) := by
+  simp [yMaskFn, xyMask_spec cfg dd h2, xAA_and dd h2]
+
+theorem xMask_spec (cfg : Cfg) (dd : Nat) (_h1 : 1 ≤ dd) (h2 : dd ≤ 32) :
+    xMaskFn cfg dd = some (interleave (2 ^ dd - 1) 0) := xMask_spec0 cfg dd h2
+
+theorem yMask_spec (cfg : Cfg) (dd : Nat) (_h1 : 1 ≤ dd) (h2 : dd ≤ 32) :
+    yMaskFn cfg dd = some (interleave 0 (2 ^ dd - 1)) := yMask_spec0 cfg dd h2
 
 theorem xMask_eq_spreadN (dd : Nat) (h2 : dd ≤ 32) : interleave (2 ^ dd - 1) 0 = spreadN dd (2 ^ dd - 1) := by
   rw [interleave_zero_right]
@@ -496,7 +533,7 @@ theorem internalCorner_spec (cfg : Cfg) (hash dd : Nat) (h1 : 1 ≤ dd) (hd : dd
     rw [or_eq_add _ _ _ (interleave_lt hd hm (by omega))]
   · simp only [internalCorner, hash_shl hash dd hh hd, yMask_spec cfg dd h1 hd, Option.map_some]
     rw [or_eq_add _ _ _ (interleave_lt hd (by omega) hm)]
-  · simp only [internalCorner, hash_shl hash dd hh hd, xyMask_spec cfg dd h1 hd, Option.map_some]
+  · simp only [internalCorner, hash_shl hash dd hh hd, xyMask_spec cfg dd hd, Option.map_some]
     rw [or_eq_add _ _ _ hmax, interleave_max dd hd]
   · intro dir a b c d
     cases dir <;> simp_all [internalCorner]
